@@ -29,7 +29,7 @@ type c13HGroup struct {
 	pre    bool
 	parent bool
 	np     []string
-	ovr    map[string]string
+	ovr    []map[string]string
 	ops    []c13Op
 }
 
@@ -57,8 +57,8 @@ func c13HErr(err error) string {
 
 // c13HBlock writes one block through the context it was derived for.
 func c13HBlock(ctx *boltz.PersistContext, g *c13HGroup, nested *[]string) {
-	if g.ovr != nil {
-		ctx.WithFieldOverrides(g.ovr)
+	for _, m := range g.ovr {
+		ctx.WithFieldOverrides(m)
 	}
 	var obs []string
 	target := ctx
@@ -211,10 +211,14 @@ func c13HParse(toks []string) (x []string, checker boltz.FieldChecker, groups []
 			cur = &c13HGroup{pre: t[1] == 'p', parent: t[2] == '^'}
 			body := t[3:]
 			if i := strings.IndexByte(body, '~'); i >= 0 {
-				cur.ovr = map[string]string{}
-				for _, p := range strings.Split(body[i+1:], ",") {
-					ab := strings.Split(p, ">")
-					cur.ovr[fromWire(ab[0])] = fromWire(ab[1])
+				// one WithFieldOverrides call per ~table, in order
+				for _, tbl := range strings.Split(body[i+1:], "~") {
+					m := map[string]string{}
+					for _, p := range strings.Split(tbl, ",") {
+						ab := strings.Split(p, ">")
+						m[fromWire(ab[0])] = fromWire(ab[1])
+					}
+					cur.ovr = append(cur.ovr, m)
 				}
 				body = body[:i]
 			}
